@@ -300,22 +300,41 @@ Definition cols_of_calls (cs : list call) : list colarg :=
   flat_map (fun cl => match cl with KColumns a => cols_of_args a | _ => [] end) cs.
 Definition sets_of_calls (cs : list call) : list (colarg * pyval) :=
   flat_map (fun cl => match cl with KSet f v => [(f, v)] | _ => [] end) cs.
-Definition where_of_calls (cs : list call) : option term :=
-  fold_left (fun acc cl => match cl with
-                           | KWhere c => match acc with None => Some c | Some w => Some (TCplx BAnd w c None) end
-                           | _ => acc end) cs None.
+Definition where_step (acc : option term) (cl : call) : option term :=
+  match cl with
+  | KWhere c => match acc with None => Some c | Some w => Some (TCplx BAnd w c None) end
+  | _ => acc
+  end.
+Definition where_of_calls (cs : list call) : option term := fold_left where_step cs None.
 (* (_replace, _insert_or_replace) after the calls *)
-Definition flags_of_calls (cs : list call) : bool * bool :=
-  fold_left (fun acc cl => match cl with
-                           | KInsert _ => (false, snd acc)
-                           | KReplace _ => (true, snd acc)
-                           | KInsertOrReplace _ => (true, true)
-                           | _ => acc end) cs (false, false).
+Definition flag_step (acc : bool * bool) (cl : call) : bool * bool :=
+  match cl with
+  | KInsert _ => (false, snd acc)
+  | KReplace _ => (true, snd acc)
+  | KInsertOrReplace _ => (true, true)
+  | _ => acc
+  end.
+Definition flags_of_calls (cs : list call) : bool * bool := fold_left flag_step cs (false, false).
+Definition limit_step (acc : option Z) (cl : call) : option Z := match cl with KLimit n => Some n | _ => acc end.
+Definition froms_of_calls (cs : list call) : list tref :=
+  flat_map (fun cl => match cl with KFromSelect t _ => [t] | _ => [] end) cs.
+Definition sels_of_calls (cs : list call) : list term :=
+  flat_map (fun cl => match cl with KFromSelect _ s => s | _ => [] end) cs.
 Inductive imode := MInsert | MReplace | MInsertOrReplace.
 Definition mode_of_flags (f : bool * bool) : imode :=
   if fst f then (if snd f then MInsertOrReplace else MReplace) else MInsert.
 Definition mode_of_calls (cs : list call) : imode := mode_of_flags (flags_of_calls cs).
 
+(* legal shapes, whatever the statement kind *)
+Definition call_ok (c : cls) (cl : call) : bool :=
+  match cl with
+  | KColumns a => legal_cols a
+  | KInsert a | KReplace a => legal_args a
+  | KInsertOrReplace a => legal_args a && cls_eqb c CSQLLite
+  | _ => true
+  end.
+Definition nodml_call (cl : call) : bool :=
+  match cl with KSet _ _ | KFromSelect _ _ | KWhere _ | KLimit _ => true | _ => false end.
 (* call lists of an INSERT with literal rows / of an UPDATE / of a DELETE *)
 Definition insert_call_ok (c : cls) (cl : call) : bool :=
   match cl with
@@ -326,6 +345,14 @@ Definition insert_call_ok (c : cls) (cl : call) : bool :=
   end.
 Definition update_call_ok (cl : call) : bool := match cl with KSet _ _ | KWhere _ => true | _ => false end.
 Definition delete_call_ok (cl : call) : bool := match cl with KWhere _ => true | _ => false end.
+(* INSERT ... SELECT: columns, from+select, where, and insert()/replace() without arguments to choose the verb *)
+Definition inssel_call_ok (cl : call) : bool :=
+  match cl with
+  | KColumns a => legal_cols a
+  | KFromSelect _ _ | KWhere _ => true
+  | KInsert [] | KReplace [] => true
+  | _ => false
+  end.
 
 (* ------------------------------------------------------------------------------------------------ *)
 (* 5. literal tokens and the positional reader                                                         *)
@@ -574,3 +601,68 @@ Definition col_str (c : colarg) : string := match c with CStr s => s | CFld _ =>
 Definition dml_cls_ok (c : cls) : bool :=
   option_eqb String.eqb (cls_q c) (Some """") && option_eqb String.eqb (cls_sq c) (Some "'")
   && option_eqb String.eqb (cls_aq c) None && negb (cls_askw c) && negb (cls_is_clickhouse c).
+
+(* ------------------------------------------------------------------------------------------------ *)
+(* 6. literal cells of a state and the statement a literal state asks for                              *)
+(* ------------------------------------------------------------------------------------------------ *)
+Definition term_lit (t : term) : option lit :=
+  match t with
+  | TValS s None => Some (LStr s)
+  | TValI z None => Some (LBare (Z_to_string z))
+  | TValB b sqlite None => Some (LBare (if sqlite then (if b then "1" else "0") else (if b then "true" else "false")))
+  | TValNone None => Some (LBare "null")
+  | TValRaw x None => Some (LBare x)
+  | TLit x None => Some (LBare x)
+  | _ => None
+  end.
+Definition lit_of (t : term) : lit := match term_lit t with Some l => l | None => LBare "" end.
+Definition is_litterm (t : term) : bool := match term_lit t with Some _ => true | None => false end.
+Definition plain_field (t : term) : option string :=
+  match t with TField n _ None => Some n | _ => None end.
+Definition field_name (t : term) : string := match plain_field t with Some n => n | None => "" end.
+
+Definition lit_eqb (a b : lit) : bool :=
+  match a, b with LStr x, LStr y => String.eqb x y | LBare x, LBare y => String.eqb x y | _, _ => false end.
+Definition imode_eqb (a b : imode) : bool :=
+  match a, b with MInsert, MInsert | MReplace, MReplace | MInsertOrReplace, MInsertOrReplace => true | _, _ => false end.
+Definition ast_eqb (a b : dml_ast) : bool :=
+  match a, b with
+  | AInsert m t c r, AInsert m' t' c' r' =>
+      imode_eqb m m' && String.eqb t t' && list_eqb String.eqb c c' && list_eqb (list_eqb lit_eqb) r r'
+  | AInsertSelect m t c s, AInsertSelect m' t' c' s' =>
+      imode_eqb m m' && String.eqb t t' && list_eqb String.eqb c c' && String.eqb s s'
+  | AUpdate t s w, AUpdate t' s' w' =>
+      String.eqb t t' && list_eqb (fun x y => String.eqb (fst x) (fst y) && lit_eqb (snd x) (snd y)) s s'
+      && option_eqb String.eqb w w'
+  | ADelete t w, ADelete t' w' => String.eqb t t' && option_eqb String.eqb w w'
+  | _, _ => false
+  end.
+
+(* the text Query.rquery writes for the criterion of an UPDATE / a DELETE (the criterion is an arbitrary term; the
+   with_namespace flag is the renderer's "reference to a foreign table" decision) *)
+Definition upd_wns (tbl : tref) (w : option term) : bool :=
+  match option_map IT w with
+  | Some (IT w0) =>
+      existsb (fun o : option tref => match o with
+                                      | Some tb => negb (existsb (tref_eqb (resolve_tref [] tb)) [tbl])
+                                      | None => false end) (field_tables w0)
+  | _ => false
+  end || false.
+Definition upd_where_res (c : cls) (tbl : tref) (w : term) : res string :=
+  render (set_subq (set_wn (kc (defaults c (top_ctx c))) (upd_wns tbl (Some w))) true) (map_tref (resolve_tref []) w).
+Definition del_wns (tbl : tref) (w : option term) : bool :=
+  Nat.ltb 1 (List.length [SrcT tbl]) || false ||
+  match option_map IT w with
+  | Some (IT w0) =>
+      existsb (fun o : option tref => match o with
+                                      | Some tb => negb (existsb (tref_eqb (resolve_tref [src_ref (SrcT tbl) None] tb))
+                                                                 [src_ref (SrcT tbl) None])
+                                      | None => false end) (field_tables w0)
+  | _ => false
+  end.
+Definition del_where_res (c : cls) (tbl : tref) (w : term) : res string :=
+  render (set_subq (set_wn (kc (defaults c (top_ctx c))) (del_wns tbl (Some w))) true)
+         (map_tref (resolve_tref [src_ref (SrcT tbl) None]) w).
+(* the text of the SELECT of an INSERT ... SELECT *)
+Definition ins_sel_res (c : cls) (y : query) : res string :=
+  rquery (with_c (defaults c (top_ctx c)) (set_wn (kc (defaults c (top_ctx c))) false)) false false (qalias y) y.
